@@ -10,7 +10,12 @@ from oracle import frac_str, parse_frac
 NEEDS_DATASET = True
 TARGETS = ["RdVerif.Props.C14"]
 THEOREMS = ["RdVerif.C14.frac_def", "RdVerif.C14.frac_sum_one", "RdVerif.C14.frac_in_unit_interval",
-            "RdVerif.C14.frac_scale_invariant"]
+            "RdVerif.C14.frac_scale_invariant", "RdVerif.C14.mole_fractions_eq_number_shares",
+            "RdVerif.C14.mass_fractions_eq_weighted_shares", "RdVerif.C14.activity_fractions_scale",
+            "RdVerif.C14.mass_fractions_scale", "RdVerif.C14.mole_fractions_scale",
+            "RdVerif.C14.mass_fractions_created_from_mass", "RdVerif.C14.mole_fractions_created_from_moles",
+            "RdVerif.C14.activity_fractions_created_from_activity", "RdVerif.C14.activity_fraction_stable",
+            "RdVerif.C14.frac_group_additive", "RdVerif.C14.frac_perm"]
 PARTIAL = {
     "C14_float_partial": "the exact laws are theorems over the rationals; that the double-precision fractions are within (n+4) ulp "
                          "of the exact quotient of the actual read-outs is checked per input against the executable model",
@@ -32,6 +37,10 @@ def correspondence(rep, ctx):
         "to build the inventory; float class vs high-precision class. distinct = distinct (inventory, read-out kind)")
     U = Fraction(1, 2**52)
     items, lines = [], []
+    citems, clines = [], []
+    sd = rd.DEFAULTDATA.scipy_data
+    sd_index = {str(nm_): i_ for i_, nm_ in enumerate(rd.DEFAULTDATA.nuclides)}
+    from radioactivedecay.converters import AVOGADRO as avogadro
     bad = 0
 
     def fail(desc, msg):
@@ -65,6 +74,18 @@ def correspondence(rep, ctx):
                 continue   # decayed float inventories can carry negative rounding noise: outside the property's premise
             items.append((C.__name__, kind, contents, list(fr.values()), list(fr), len(vals), inv, hp))
             lines.append("fracs\t" + "\t".join(frac_str(v) for v in vals))
+            if not hp:
+                # the same fractions from the STORED contents (atoms, the dataset's double decay constants and atomic
+                # masses, the converter's Avogadro constant) through the model of the read-outs: ties the theorems about
+                # activityFractions / massFractions / moleFractions to the code, not only the final division
+                trip = []
+                for nm_ in fr:
+                    i_ = sd_index[nm_]
+                    trip += [frac_str(F(float(inv.contents[nm_]))), frac_str(F(float(sd.decay_consts[i_]))),
+                             frac_str(F(float(sd.atomic_masses[i_])))]
+                citems.append((len(items) - 1, len(clines), sum(vals)))
+                clines.append("cfracs\t" + kind + "\t" + frac_str(F(float(avogadro))) + "\t" + "\t".join(trip))
+                gen._count(f"from-contents:{kind}")
             gen._count(f"{'hp' if hp else 'float'}:{kind}")
     model = lean_driver(lines) if (ctx.build_ok and lines) else None
     for j, (cname, kind, contents, got, keys, n, inv, hp) in enumerate(items):
@@ -86,6 +107,22 @@ def correspondence(rep, ctx):
             for k, x, e in zip(keys, fg, exact):
                 if abs(x - e) > tol * e + Fraction(1, 10**320):
                     fail(desc, f"{k}: {float(x)!r} vs exact share {float(e)!r}")
+                    break
+    cmodel = lean_driver(clines) if (ctx.build_ok and clines) else None
+    if cmodel is not None:
+        for j, cj, tot_ro in citems:
+            cname, kind, contents, got, keys, n, inv, hp = items[j]
+            desc = f"{cname}({contents!r}).{kind}_fractions() vs the model run on the stored contents"
+            rep.case(("from-contents", kind, repr(contents)))
+            if not cmodel[cj].startswith("ok "):
+                fail(desc, f"model answered {cmodel[cj][:60]!r}")
+                continue
+            exact = [parse_frac(x) for x in cmodel[cj][3:].split(" ")]
+            for k, x, e in zip(keys, got, exact):
+                # read-out: <= 2 roundings, sum: n - 1, quotient: 1; a read-out whose intermediate N / avogadro or N * lambda
+                # is subnormal carries an absolute error of up to one subnormal spacing (times the atomic mass, < 300)
+                if abs(F(x) - e) > (n + 8) * U * e + Fraction(600, 2**1074) / tot_ro + Fraction(1, 10**320):
+                    fail(desc, f"{k}: {x!r} vs share computed from the contents {float(e)!r}")
                     break
     # invariances (float class)
     for j in range(ncases // 3):
